@@ -487,14 +487,17 @@ pub mod c01_query {
                 .collect();
             format!("c01.query {shards} {} {}", nat_list(&a), rec_str(&recs))
         };
-        // quick: one single-shard and one two-shard query (>= 30 match keys per shard)
+        // quick: one single-shard query with 32 match keys (the two-shard 64-key query runs in the thorough tier;
+        // the tiny multi-shard queries below keep the sharded path in the quick tier)
         v.push(case(rng, 1, 32, 0));
-        v.push(case(rng, 2, 64, 0));
+        if thorough {
+            v.push(case(rng, 2, 64, 0));
+        }
         // tiny multi-shard queries: every shard submits at least one report (a query size of zero is
         // rejected before the protocol), the unique tags decide where they are processed
         v.push("c01.query 2 0,1 i:1:2,c:1:3".to_string());
-        v.push("c01.query 3 0,1,2 i:7:5,c:7:6,c:8:1".to_string());
         if thorough {
+            v.push("c01.query 3 0,1,2 i:7:5,c:7:6,c:8:1".to_string());
             for i in 0..6u64 {
                 let shards = 1 + (i as usize % 2);
                 let n_keys = 30 * shards + rng.usize_below(40);
